@@ -1,4 +1,5 @@
-import Tmv.Lemmas.ValPrune
+import Tmv.Lemmas.ValBootstrap
+import Tmv.Lemmas.ValTurns
 import Tmv.Lemmas.ValUpdBound
 /-! C08 — validator-set updates, proposer rotation and historical lookup are exact.
 Theorems about the model of `types/validator_set.go`, `state/store.go`, `state/execution.go`
@@ -9,38 +10,138 @@ open Tmv.ValSet Tmv.ValStore
 
 /-! ## historical lookup -/
 
-theorem inv_run (s : Sys) (hi : Inv s) (evs : List Ev) : Inv (s.run evs) := by
+/-- side conditions under which a step keeps `LoadValidators` exact: none for blocks; a prune
+must not target a stale record above the tip (impossible before the first rollback); a rollback
+must be `RollbackSafe` (no validator change by the rolled-back block or its predecessor) -/
+def SafeEv (s : Sys) : Ev → Prop
+  | .block _ => True
+  | .prune _ b => s.clean = true ∨ b ≤ tip s.st ∨ s.db.vals.get b = none
+  | .rollback => RollbackSafe s
+
+def SafeRun : Sys → List Ev → Prop
+  | _, [] => True
+  | s, e :: r => SafeEv s e ∧ SafeRun (s.step e) r
+
+theorem inv_run (s : Sys) (hi : Inv s) (evs : List Ev) (hs : SafeRun s evs) : Inv (s.run evs) := by
   unfold Sys.run
   induction evs generalizing s with
   | nil => exact hi
   | cons e r ih =>
     simp only [List.foldl]
-    apply ih
+    obtain ⟨h1, h2⟩ := hs
+    apply ih _ _ h2
     cases e with
     | block ch => exact inv_block s hi ch
-    | prune a b => exact inv_prune s hi a b
+    | prune a b => exact inv_prune s hi a b h1
+    | rollback => exact inv_rollback s hi h1
+
+/-- histories of blocks and prunes only -/
+def NoRollback (evs : List Ev) : Prop := ∀ e ∈ evs, e ≠ Ev.rollback
+
+theorem step_clean (s : Sys) (e : Ev) (he : e ≠ Ev.rollback) : (s.step e).clean = s.clean := by
+  cases e with
+  | block ch =>
+    show (match updateState s.st (blockHeight s.st) ch with
+      | .ok st' =>
+        match save s.db st' with
+        | some db' =>
+          (⟨db', st', fun k => if k = blockHeight s.st + 2 then some st'.nextValidators else s.truth k, s.base, s.clean⟩ : Sys)
+        | none => s
+      | _ => s).clean = s.clean
+    cases updateState s.st (blockHeight s.st) ch with
+    | ok st' => simp only; cases save s.db st' <;> rfl
+    | err e => rfl
+    | panic => rfl
+  | prune a b => rfl
+  | rollback => exact absurd rfl he
+
+theorem safe_of_noRollback (s : Sys) (hc : s.clean = true) (evs : List Ev) (h : NoRollback evs) :
+    SafeRun s evs := by
+  induction evs generalizing s with
+  | nil => trivial
+  | cons e r ih =>
+    have he : e ≠ Ev.rollback := h e List.mem_cons_self
+    refine ⟨?_, ih _ (by rw [step_clean s e he]; exact hc) (fun x hx => h x (List.mem_cons_of_mem _ hx))⟩
+    cases e with
+    | block ch => trivial
+    | prune a b => exact Or.inl hc
+    | rollback => exact absurd rfl he
+
+theorem ofInitial_clean (ih : Int) (st : State) (s0 : Sys) (h : Sys.ofInitial ih st = some s0) :
+    s0.clean = true := by
+  unfold Sys.ofInitial at h
+  split at h
+  · cases h
+  · split at h
+    · cases h
+    · cases h; rfl
+
+theorem init_clean (ih : Int) (valz : List Val) (s0 : Sys) (h : Sys.init ih valz = some s0) :
+    s0.clean = true := by
+  unfold Sys.init at h
+  split at h
+  · cases h
+  · exact ofInitial_clean _ _ _ h
+
+theorem initHandshake_clean (ih : Int) (valz iv : List Val) (s0 : Sys)
+    (h : Sys.initHandshake ih valz iv = some s0) : s0.clean = true := by
+  unfold Sys.initHandshake at h
+  split at h
+  · cases h
+  · split at h
+    · exact ofInitial_clean _ _ _ h
+    · cases h
 
 /-- **load_exact.** For every genesis (initial height ≥ 1, at least one validator), every history
 of blocks carrying arbitrary update batches (failing batches leave the state unchanged, as in
 `ApplyBlock`) interleaved with arbitrary `PruneStates(from,to)` calls (valid or not, successful or
-failing half-way), and every height between the lowest retained height and the tip:
+failing half-way; no `state.Rollback`, see `rollback_breaks_load`), and every height between the lowest retained height and the tip:
 `LoadValidators h` returns exactly the set, proposer and priorities included, that the chain had
 in force at `h`. -/
 theorem load_exact (ih : Int) (hih : 1 ≤ ih) (valz : List Val) (s0 : Sys)
-    (h0 : Sys.init ih valz = some s0) (evs : List Ev) (h : Int)
+    (h0 : Sys.init ih valz = some s0) (evs : List Ev) (hnr : NoRollback evs) (h : Int)
     (hb : (s0.run evs).base ≤ h) (ht : h ≤ tip (s0.run evs).st) :
     ∃ v, (s0.run evs).truth h = some v ∧ loadValidators (s0.run evs).db.vals h = .ok v :=
-  load_of_inv _ (inv_run s0 (inv_init ih hih valz s0 h0) evs) h hb ht
+  load_of_inv _ (inv_run s0 (inv_init ih hih valz s0 h0) evs
+    (safe_of_noRollback s0 (init_clean ih valz s0 h0) evs hnr)) h hb ht
+
+/-- **load_exact_rollback_partial.** Histories that also contain `state.Rollback` steps: exactness
+holds provided every rollback is `RollbackSafe` — the set of height `LastBlockHeight+1` last
+changed at or below `LastBlockHeight` (neither the rolled-back block nor its predecessor carried
+validator updates) and that height is retained — and no prune targets a stale record above the
+tip. Without the first condition the statement is false: `rollback_breaks_load`. -/
+theorem load_exact_rollback_partial (ih : Int) (hih : 1 ≤ ih) (valz : List Val) (s0 : Sys)
+    (h0 : Sys.init ih valz = some s0) (evs : List Ev) (hs : SafeRun s0 evs) (h : Int)
+    (hb : (s0.run evs).base ≤ h) (ht : h ≤ tip (s0.run evs).st) :
+    ∃ v, (s0.run evs).truth h = some v ∧ loadValidators (s0.run evs).db.vals h = .ok v :=
+  load_of_inv _ (inv_run s0 (inv_init ih hih valz s0 h0) evs hs) h hb ht
 
 /-- **load_exact (handshake genesis).** The same for a chain started by the node's handshake with
 an application whose InitChain returns its own validator list (`Handshaker.ReplayBlocks`):
 exactness rests on `NextValidators` being exactly ONE rotation ahead of `Validators` in the first
 saved state (`Initial.hnext`). -/
 theorem load_exact_handshake (ih : Int) (hih : 1 ≤ ih) (valz iv : List Val) (s0 : Sys)
-    (h0 : Sys.initHandshake ih valz iv = some s0) (evs : List Ev) (h : Int)
+    (h0 : Sys.initHandshake ih valz iv = some s0) (evs : List Ev) (hnr : NoRollback evs) (h : Int)
     (hb : (s0.run evs).base ≤ h) (ht : h ≤ tip (s0.run evs).st) :
     ∃ v, (s0.run evs).truth h = some v ∧ loadValidators (s0.run evs).db.vals h = .ok v :=
-  load_of_inv _ (inv_run s0 (inv_initHandshake ih hih valz iv s0 h0) evs) h hb ht
+  load_of_inv _ (inv_run s0 (inv_initHandshake ih hih valz iv s0 h0) evs
+    (safe_of_noRollback s0 (initHandshake_clean ih valz iv s0 h0) evs hnr)) h hb ht
+
+/-- **load_exact (state-sync bootstrap).** A node that starts from `store.Bootstrap(state)` at an
+arbitrary height (`Bootable`: the three sets of heights `LastBlockHeight..+2` with proposers,
+`LastHeightValidatorsChanged = LastBlockHeight + 2` as the state provider sets it) and then applies
+blocks and prunes: `LoadValidators` is exact from `LastBlockHeight` up to the tip. -/
+theorem load_exact_bootstrap (st : State) (hb : Bootable st) (s0 : Sys)
+    (h0 : Sys.ofBootstrap st = some s0) (evs : List Ev) (hnr : NoRollback evs) (h : Int)
+    (hbase : (s0.run evs).base ≤ h) (ht : h ≤ tip (s0.run evs).st) :
+    ∃ v, (s0.run evs).truth h = some v ∧ loadValidators (s0.run evs).db.vals h = .ok v :=
+  load_of_inv _ (inv_run s0 (inv_ofBootstrap st hb s0 h0) evs
+    (safe_of_noRollback s0 (ofBootstrap_clean st s0 h0) evs hnr)) h hbase ht
+
+/-- non-vacuity: a bootable state at height 1000 (checked by evaluation) -/
+example : (Sys.ofBootstrap ⟨1, 1000, ⟨[⟨1, 5, 0⟩], some ⟨1, 5, 0⟩⟩, ⟨[⟨1, 5, 0⟩], some ⟨1, 5, 0⟩⟩,
+    ⟨[⟨1, 5, 0⟩], some ⟨1, 5, 0⟩⟩, 1002, 1⟩).isSome = true := by
+  decide
 
 /-- non-vacuity: empty genesis list, validators from InitChain -/
 example : (Sys.initHandshake 5 [] [⟨1, 10, 0⟩, ⟨2, 1, 0⟩]).isSome = true := by decide
@@ -48,11 +149,42 @@ example : (Sys.initHandshake 5 [] [⟨1, 10, 0⟩, ⟨2, 1, 0⟩]).isSome = true
 /-- the recorded set at the tip is the state's `NextValidators`, and the retained range is
 never empty -/
 theorem truth_tip (ih : Int) (hih : 1 ≤ ih) (valz : List Val) (s0 : Sys)
-    (h0 : Sys.init ih valz = some s0) (evs : List Ev) :
+    (h0 : Sys.init ih valz = some s0) (evs : List Ev) (hs : SafeRun s0 evs) :
     (s0.run evs).truth (tip (s0.run evs).st) = some (s0.run evs).st.nextValidators ∧
     (s0.run evs).base ≤ tip (s0.run evs).st :=
-  let hi := inv_run s0 (inv_init ih hih valz s0 h0) evs
+  let hi := inv_run s0 (inv_init ih hih valz s0 h0) evs hs
   ⟨hi.rec_tip, hi.base_le⟩
+
+/-- the history of the replayed scenario: two validators, a third joins in block 5, block 6 is
+rolled back -/
+def rollbackWitness : Option Sys :=
+  (Sys.init 1 [⟨1, 10, 0⟩, ⟨2, 7, 0⟩]).map fun s =>
+    s.run [.block [], .block [], .block [], .block [], .block [⟨3, 5, 0⟩], .block [], .rollback]
+
+theorem rollbackWitness_eval :
+    rollbackWitness.map (fun s => (decide (s.base ≤ 7 ∧ 7 ≤ tip s.st), loadValidators s.db.vals 7)) =
+      some (true, .notFound) := by decide +kernel
+
+/-- **rollback_breaks_load.** `load_exact` is FALSE of histories with arbitrary `state.Rollback`
+steps (known finding `state.Rollback.last-change-height-clamped-one-too-low`): after rolling
+back the block that follows a validator change, height 7 is retained but `LoadValidators 7`
+fails ("couldn't find validators at height 6"). -/
+theorem rollback_breaks_load :
+    ¬ (∀ (ih : Int) (valz : List Val) (s0 : Sys) (evs : List Ev) (h : Int), 1 ≤ ih →
+        Sys.init ih valz = some s0 → (s0.run evs).base ≤ h → h ≤ tip (s0.run evs).st →
+        ∃ v, (s0.run evs).truth h = some v ∧ loadValidators (s0.run evs).db.vals h = .ok v) := by
+  intro hall
+  have hw := rollbackWitness_eval
+  unfold rollbackWitness at hw
+  cases hinit : Sys.init 1 [⟨1, 10, 0⟩, ⟨2, 7, 0⟩] with
+  | none => rw [hinit] at hw; simp at hw
+  | some s0 =>
+    rw [hinit] at hw
+    simp only [Option.map_some, Option.some.injEq, Prod.mk.injEq, decide_eq_true_eq] at hw
+    obtain ⟨⟨hb, ht⟩, hl⟩ := hw
+    obtain ⟨v, _, hv⟩ := hall 1 _ s0 _ 7 (by omega) hinit hb ht
+    rw [hl] at hv
+    cases hv
 
 /-- non-vacuity: a genesis just below the checkpoint boundary exists -/
 example : (Sys.init 99999 [⟨1, 10, 0⟩, ⟨2, 1, 0⟩]).isSome = true := by decide
@@ -294,21 +426,23 @@ theorem ofInitial_st (ih : Int) (st : State) (s0 : Sys) (h : Sys.ofInitial ih st
     · cases h
     · cases h; exact ⟨rfl, hne⟩
 
-theorem run_reach (s0 : Sys) (hinit : StateReach s0.st) (evs : List Ev) :
+theorem run_reach (s0 : Sys) (hinit : StateReach s0.st) (evs : List Ev) (hnr : NoRollback evs) :
     StateReach (s0.run evs).st := by
   unfold Sys.run
   induction evs generalizing s0 with
   | nil => exact hinit
   | cons e r ihh =>
     simp only [List.foldl]
-    apply ihh
+    have he : e ≠ Ev.rollback := hnr e List.mem_cons_self
+    apply ihh _ _ (fun x hx => hnr x (List.mem_cons_of_mem _ hx))
     cases e with
+    | rollback => exact absurd rfl he
     | block ch =>
       show StateReach (match updateState s0.st (blockHeight s0.st) ch with
         | .ok st' =>
           match save s0.db st' with
           | some db' =>
-            (⟨db', st', fun k => if k = blockHeight s0.st + 2 then some st'.nextValidators else s0.truth k, s0.base⟩ : Sys)
+            (⟨db', st', fun k => if k = blockHeight s0.st + 2 then some st'.nextValidators else s0.truth k, s0.base, s0.clean⟩ : Sys)
           | none => s0
         | _ => s0).st
       cases hu : updateState s0.st (blockHeight s0.st) ch with
@@ -326,8 +460,8 @@ the current and next validator sets are well-formed (unique addresses, positive 
 order, `0 < total ≤ MaxTotalVotingPower`, non-empty) with priorities within
 `3·MaxTotalVotingPower` — so `priorities_no_clip` applies at every height. -/
 theorem chain_reach (ih : Int) (valz : List Val) (s0 : Sys) (h0 : Sys.init ih valz = some s0)
-    (evs : List Ev) : StateReach (s0.run evs).st := by
-  apply run_reach
+    (evs : List Ev) (hnr : NoRollback evs) : StateReach (s0.run evs).st := by
+  apply run_reach _ _ _ hnr
   unfold Sys.init at h0
   split at h0
   · cases h0
@@ -337,9 +471,9 @@ theorem chain_reach (ih : Int) (valz : List Val) (s0 : Sys) (h0 : Sys.init ih va
 
 /-- `chain_reach` for a chain whose first sets come from the application's InitChain response -/
 theorem chain_reach_handshake (ih : Int) (valz iv : List Val) (s0 : Sys)
-    (h0 : Sys.initHandshake ih valz iv = some s0) (evs : List Ev) :
+    (h0 : Sys.initHandshake ih valz iv = some s0) (evs : List Ev) (hnr : NoRollback evs) :
     StateReach (s0.run evs).st := by
-  apply run_reach
+  apply run_reach _ _ _ hnr
   unfold Sys.initHandshake at h0
   split at h0
   · cases h0
@@ -361,6 +495,42 @@ theorem chain_reach_handshake (ih : Int) (valz iv : List Val) (s0 : Sys)
         rw [hs1] at hnx; cases hnx
         exact ⟨hr, hr1⟩
     · cases h0
+
+/-! ## turns are proportional to voting power -/
+
+/-- **turns_proportional (no rescale in the window).** `k` consecutive single rotations without
+set changes from a reachable, centred set, no rescale triggering: for every validator
+`|k·power − turns·total| ≤ 5·total`; the rotation itself is the closed form `rotate`
+(`increment_calm`) and `priority_k = priority_0 + k·power − turns·total` (`turns_identity`). -/
+theorem turns_proportional_no_rescale (k : Nat) (s : VSet) (hr : Reach s.vals) (hc : Centred s.vals)
+    (hcalm : CalmRun k s) (v : Val) (hv : v ∈ s.vals) :
+    -(5 * sumPower s.vals) ≤ (k : Int) * v.power - turns v.addr k s * sumPower s.vals ∧
+    (k : Int) * v.power - turns v.addr k s * sumPower s.vals ≤ 5 * sumPower s.vals :=
+  turns_proportional_calm k s hr hc hcalm v hv
+
+/-- **turns_proportional.** Any window of `k` consecutive single rotations without set changes,
+from any reachable set with priorities within `3·total` (every set produced by a rotation):
+`|k·power − turns·total| ≤ (6 + 5·E)·total`, `E` = number of rotations in the window at which the
+normalisation (rescale / centring) changed a priority. -/
+theorem turns_proportional_events (k : Nat) (s : VSet) (hr : Reach s.vals)
+    (hb : PBound (3 * sumPower s.vals) s.vals) (v : Val) (hv : v ∈ s.vals) :
+    -(6 * sumPower s.vals + 5 * sumPower s.vals * events k s) ≤
+      (k : Int) * v.power - turns v.addr k s * sumPower s.vals ∧
+    (k : Int) * v.power - turns v.addr k s * sumPower s.vals ≤
+      6 * sumPower s.vals + 5 * sumPower s.vals * events k s := by
+  obtain ⟨sk, _, _, _, hbk, _, hid⟩ := turns_proportional k s hr hb
+  have h0 := hb v hv
+  have h1 := hid v hv
+  have hk : -(3 * sumPower s.vals) ≤ prioOf sk.vals v.addr ∧ prioOf sk.vals v.addr ≤ 3 * sumPower s.vals := by
+    unfold prioOf
+    cases hf : findAddr sk.vals v.addr with
+    | none => have := hr.wf.total_pos; simp only; omega
+    | some w => exact hbk w (findAddr_some hf).1
+  omega
+
+/-- non-vacuity: the witness set below is reachable, and a calm window exists -/
+example : CalmRun 1 ⟨[⟨1, 3, 1⟩, ⟨2, 1, -1⟩], none⟩ ∧ Centred [(⟨1, 3, 1⟩ : Val), ⟨2, 1, -1⟩] :=
+  ⟨⟨by unfold NoRescale; decide, fun _ _ => trivial⟩, by unfold Centred; decide⟩
 
 /-- a reachable set taken from a replayed run of the real state store (height 200007 of
 `replays/C08-oracle-59c8d9950487550f.json`, addresses renumbered in order) -/
